@@ -220,6 +220,62 @@ static void frame_stream(size_t off, size_t size, size_t cin, size_t cout, int f
     if (dictMode == 1) dictMode = 0;
 }
 
+/* ---------------- one long stream through the reused context, generated and decoded on the fly ---------------- */
+#define BCH (1u << 16)
+static void gen_chunk(BYTE* dst, U64 i, U64 seed) {
+    U64 h = (i + seed) * 0x9E3779B97F4A7C15ULL; h ^= h >> 29; h *= 0xBF58476D1CE4E5B9ULL; h ^= h >> 32;
+    {   size_t const span = (arenaSize > (4u << 20) ? (2u << 20) : arenaSize / 2) - BCH;
+        size_t const off = (size_t)(h % span);
+        memcpy(dst, arena + off, BCH);
+        memcpy(dst + (h >> 40) % (BCH - 8), &i, 8);      /* every chunk is unique */
+    }
+}
+static void bigstream(U64 total, U64 seed) {
+    BYTE* const in = (BYTE*)malloc(BCH); BYTE* const exp = (BYTE*)malloc(BCH);
+    size_t const ocap = ZSTD_compressBound(BCH) + 4096; BYTE* const out = (BYTE*)malloc(ocap);
+    BYTE* const dec = (BYTE*)malloc(BCH);
+    U64 fed = 0, produced = 0, decoded = 0, nchunks = (total + BCH - 1) / BCH, i; int ok = 1; ll maxidx = 0; U32 nbovf = 0;
+    U64 expChunk = (U64)-1; size_t r = 0;
+    const ZSTD_matchState_t* const ms = &cctx->blockState.matchState;
+    apply_params(cctx);
+    ZSTD_DCtx_reset(dctx, ZSTD_reset_session_and_parameters);
+    ZSTD_DCtx_setParameter(dctx, ZSTD_d_windowLogMax, ZSTD_WINDOWLOG_MAX);
+    for (i = 0; i < nchunks && ok; i++) {
+        size_t const n = (size_t)((total - fed < BCH) ? total - fed : BCH);
+        ZSTD_inBuffer ib; ZSTD_EndDirective const dir = (i == nchunks - 1) ? ZSTD_e_end : ZSTD_e_continue;
+        gen_chunk(in, i, seed);
+        ib.src = in; ib.size = n; ib.pos = 0;
+        do {
+            ZSTD_outBuffer ob; ZSTD_inBuffer db;
+            ob.dst = out; ob.size = ocap; ob.pos = 0;
+            r = ZSTD_compressStream2(cctx, &ob, &ib, dir);
+            if (ZSTD_isError(r)) { printf("E bigstream compress %s\n", ZSTD_getErrorName(r)); ok = 0; break; }
+            produced += ob.pos;
+            {   ll const c_ = (ll)(ms->window.nextSrc - ms->window.base); if (c_ > maxidx) maxidx = c_;
+                nbovf = ms->window.nbOverflowCorrections; }
+            db.src = out; db.size = ob.pos; db.pos = 0;
+            while (db.pos < db.size && ok) {
+                ZSTD_outBuffer dob; size_t dr, k = 0;
+                dob.dst = dec; dob.size = BCH; dob.pos = 0;
+                dr = ZSTD_decompressStream(dctx, &dob, &db);
+                if (ZSTD_isError(dr)) { printf("E bigstream decompress %s at %llu\n", ZSTD_getErrorName(dr), (unsigned long long)decoded); ok = 0; break; }
+                while (k < dob.pos) {     /* compare with the regenerated input */
+                    U64 const ci = decoded / BCH; size_t const co = (size_t)(decoded % BCH);
+                    size_t const m = (dob.pos - k < BCH - co) ? dob.pos - k : BCH - co;
+                    if (ci != expChunk) { gen_chunk(exp, ci, seed); expChunk = ci; }
+                    if (memcmp(dec + k, exp + co, m) != 0) { printf("E bigstream content differs near %llu\n", (unsigned long long)decoded); ok = 0; break; }
+                    k += m; decoded += m;
+                }
+            }
+        } while (ok && (ib.pos < ib.size || (dir == ZSTD_e_end && r != 0)));
+        fed += n;
+    }
+    if (decoded != total) ok = 0;
+    printf("G api=bigstream size=%llu csize=%llu rt=%d maxidx=%lld nbovf=%u", (unsigned long long)total, (unsigned long long)produced, ok, maxidx, nbovf);
+    state_out(cctx); printf("\n");
+    free(in); free(exp); free(out); free(dec);
+}
+
 int main(int argc, char** argv) {
     char* line = NULL; size_t cap = 0;
     static ll a[2 * MAXCH + 16];
@@ -255,6 +311,7 @@ int main(int argc, char** argv) {
         else if (!strcmp(cmd, "nodict")) { dictMode = 0; ZSTD_CCtx_loadDictionary(cctx, NULL, 0); }
         else if (!strcmp(cmd, "oneshot")) frame_oneshot((size_t)a[0], (size_t)a[1]);
         else if (!strcmp(cmd, "stream")) frame_stream((size_t)a[0], (size_t)a[1], (size_t)a[2], (size_t)a[3], (int)a[4]);
+        else if (!strcmp(cmd, "bigstream")) bigstream((U64)a[0], (U64)a[1]);
         else if (!strcmp(cmd, "bufferless")) {
             /* wlog clog hlog slog mml tlen strat checksum nch (off size)* */
             ZSTD_compressionParameters cp;
